@@ -10,6 +10,7 @@ package main
 
 import (
 	"bytes"
+	"context"
 	"crypto/sha256"
 	"encoding/hex"
 	"encoding/json"
@@ -278,12 +279,21 @@ func runWorkerCheck(prop, tier string) int {
 	resFile := filepath.Join(scratch, "result.json")
 	run := func(extra ...string) (error, string) {
 		args := append([]string{"-prop", prop, "-tier", tier, "-verif", verifDir, "-out", resFile, "-seed", strconv.FormatInt(seed(), 10)}, extra...)
-		cmd := exec.Command(w, args...)
+		limit := 45 * time.Minute
+		if tier == "thorough" {
+			limit = 6 * time.Hour
+		}
+		ctx, cancel := context.WithTimeout(context.Background(), limit)
+		defer cancel()
+		cmd := exec.CommandContext(ctx, w, args...)
 		var stderr bytes.Buffer
 		cmd.Stdout = os.Stderr
 		cmd.Stderr = &stderr
 		cmd.Env = append(os.Environ(), "VERIF_SCRATCH_DIR="+scratch, "VERIF_REPO="+repoDir)
 		err := cmd.Run()
+		if ctx.Err() != nil {
+			return fmt.Errorf("the exploration did not finish within %v (a call into the package under test seems to hang or to be extremely slow)", limit), stderr.String()
+		}
 		return err, stderr.String()
 	}
 	err, stderr := run()
